@@ -72,6 +72,11 @@ def run(ctx):
     hs += hist(ctx, "loop", 3 if q else 4)
     for mode, ln, n in [("index", 9, 150 if q else 1500), ("eq", 6, 150 if q else 1500), ("loop", 8, 100 if q else 800)]:
         hs += hist(ctx, mode, ln, simulate=n, seed=ctx.seed * 10 + ln)
+    # long-lived query objects across removals, re-additions and rebuilds (two shapes, one of them the 40-edge S2)
+    hs += hist(ctx, "index-ceq", 7 if q else 8, catalog={'"S2"'})
+    if not q:
+        hs += hist(ctx, "index-q", 7, catalog={'"S2"', rnd.choice(['"S1"', '"S3"'])})
+    hs += hist(ctx, "index-q", 10, simulate=300 if q else 5000, seed=ctx.seed * 10 + 3, catalog={'"S2"', rnd.choice(['"S1"', '"S3"'])})
     uniq = {}
     for x in hs:
         uniq[json.dumps(x, sort_keys=True)] = x
